@@ -36,6 +36,7 @@ FLOORS = {"forward_loops": 2, "evaluators": 6, "operator_variants": 11}
 EXPLANATION += " a (added): the action loop iterates the rule's stored actions, not a copy mutated beforehand, and right-hand expressions are evaluated only inside execute_action (at the moment each action runs). b (added): ConditionGroup::{single,and,or,not,exists,forall} return, on every path, exactly the variant they are named after with their parameters in place."
 EXPLANATION += " e (added, shared with C04.h): the parser's identifier test admits digits after the first character, so a bare field name such as `base2` on a right-hand side is read as a reference and not stored as text."
 EXPLANATION += " d (added): evaluate_expression runs on the condition's value only in the Value::Expression arm (a quoted literal is looked up as a name, never computed)."
+EXPLANATION += ' f (added): find_operator does not scan once per operator of the set (loop or find_map over `operators` with a scan inside): within one precedence level the rightmost occurrence of ANY operator is taken.'
 
 OP = "types::Operator"
 VALUE = "types::Value"
@@ -621,7 +622,21 @@ def _arithmetic(P, R):
     # find_operator keeps the LAST top-level match: no exit from the scan loop on a match
     fo = P.one("expression::find_operator")
     lps = fo.loops()
-    if len(lps) != 1:
+    # one scan per operator of the set (`for op in operators { scan the text for op .. }`): the first LISTED operator that
+    # occurs wins over a later-listed one further right, so `a * b % 3` groups as a * (b % 3)
+    per_op = [lp for lp in lps if "operators" in fmt_sym(A.loop_driver(fo, lp).get("iter_sym") or ("unknown",), maxdepth=6)
+              and any(l2 is not lp and l2["header"] in lp["body"] and "char" in fmt_sym(A.loop_driver(fo, l2).get("iter_sym") or ("unknown",), maxdepth=6) for l2 in lps)]
+    if not per_op:
+        # adapter form: operators.iter().find_map(|&op| { scan the text for op })
+        for c_ in fo.calls():
+            if c_.bb in fo.normal_blocks() and c_.name.rsplit("::", 1)[-1] in ("find_map", "filter_map", "map", "flat_map", "find", "position", "rposition") and len(c_.args) == 2 \
+                    and "operators" in fmt_sym(fo.sym_operand(c_.args[0]), maxdepth=6):
+                for x_ in walk(fo.sym_operand(c_.args[1])):
+                    if x_[0] == "agg" and str(x_[1]).startswith("closure:") and x_[1][len("closure:"):] in P.fns and P.fns[x_[1][len("closure:"):]].loops():
+                        per_op = [{"header": c_.bb}]
+    if per_op:
+        R.violate("f", "associativity:per-operator-scan", "find_operator scans the text once per operator of the set and stops at the first operator that occurs at all: operators of one precedence level no longer associate left to right (`a * b % 3` becomes a * (b % 3), `n / a % 3` becomes n / (a % 3))", fo, fo.term(per_op[0]["header"])[0])
+    elif len(lps) != 1:
         R.undecide("f", "find_operator", "expected one scan loop", fo)
     else:
         lp = lps[0]
